@@ -67,8 +67,8 @@ def run_case(spec, ctx):
                        'rank=%d' % np.linalg.matrix_rank(np.array(pr['Q'])) if 'Q' in pr else '-')
     sig = '|'.join('%s=%s' % (k, f[k]) for k in sorted(f) if k not in ('spell',))
     res['sig'] = sig
-    if res['status'] == 'skip' and res.get('not_optimal'):
-        if mode == 'pinned':
+    if res.get('not_optimal') and res['status'] in ('skip', 'violation'):
+        if mode == 'pinned' and (res['status'] == 'violation' or res.get('definitive')):
             # a pinned model is feasible and bounded by construction
             return {'status': 'violation', 'mechanism': 'pinned_status:' + spec['pin']['atom'],
                     'detail': {'what': 'pinned encoding model not solved', 'reason': res['reason'],
